@@ -3,9 +3,9 @@ package c05
 
 import (
 	"bytes"
-	"time"
 	"encoding/binary"
 	"fmt"
+	"time"
 
 	"go.nanomsg.org/mangos/v3"
 	"go.nanomsg.org/mangos/v3/protocol/rep"
@@ -85,14 +85,14 @@ func (m *mctx) recvCall() ([]byte, error) {
 }
 
 type world struct {
-	sock   mangos.Socket
-	ep     *vt.Endpoint
-	pipes  []*vt.Pipe
-	seen   []int
-	queue  [][]*request // per pipe, delivered and not yet received
-	ctxs   []*mctx
-	seq    uint32
-	nreply int
+	sock    mangos.Socket
+	ep      *vt.Endpoint
+	pipes   []*vt.Pipe
+	seen    []int
+	queue   [][]*request // per pipe, delivered and not yet received
+	ctxs    []*mctx
+	seq     uint32
+	nreply  int
 	lateCtx bool
 }
 
@@ -516,17 +516,17 @@ func schedSharedReply(kind string, c ctor) {
 // raw sockets
 
 type rawWorld struct {
-	sock  mangos.Socket
-	pipes []*vt.Pipe
-	ids   []uint32
-	seen  []int
-	queue [][]*request
-	got   []*mangos.Message
-	from  []int // connection each message in got came from
+	sock    mangos.Socket
+	pipes   []*vt.Pipe
+	ids     []uint32
+	seen    []int
+	queue   [][]*request
+	got     []*mangos.Message
+	from    []int // connection each message in got came from
 	connect func()
-	recv  *kit.Call
-	seq   uint32
-	nrep  int
+	recv    *kit.Call
+	seq     uint32
+	nrep    int
 }
 
 func rawHist(c ctor, depth int) {
